@@ -106,14 +106,17 @@ def rule_r2(ck, prog, rule='C06.R2'):
     rec = prog.record('sdk::metrics::SyncMultiMetricStorage')
     for f in sorted([x for x in prog.funcs.values() if x.cls == rec['qn'] and x.name in ('RecordLong', 'RecordDouble')], key=lambda x: x.line):
         cnt += 1
-        loops = [n for n in f.nodes if n['k'] == 'forrange']
+        from .common import loops_over, loop_visits_every_element
+        lists = [fd['name'] for fd in rec['fields'] if 'vector<' in fd['t'] or 'list<' in fd['t']]
+        loops = loops_over(f, lambda ap: len(ap) == 2 and ap[0] == 'this' and ap[1] in lists)
         ok = len(loops) == 1
         if ok:
-            body = [f.nodes[i] for i in f.subtree(loops[0]['body'])]
-            calls = [n for n in body if n['k'] == 'call' and n.get('virt') and strip_targs(n.get('c', '')).rsplit('::', 1)[-1] == f.name]
-            early = [n for n in body if n['k'] in ('break', 'return', 'continue', 'if')]
-            ok = len(calls) == 1 and not early and len(calls[0].get('args', [])) == len(f.params) and \
-                all(strip_casts(f, a).get('id') == p['id'] for a, p in zip(calls[0]['args'], f.params))
+            gm = Graph(prog, f, inline=None, sync_lambdas=False)
+            body = set(f.subtree(loops[0]['body']))
+            cps = [p for p in gm.points if p.n is not None and p.n['i'] in body and p.n['k'] == 'call' and p.n.get('virt') and
+                   strip_targs(p.n.get('c', '')).rsplit('::', 1)[-1] == f.name]
+            ok = len(cps) == 1 and loop_visits_every_element(gm, f, loops[0], cps) is None and len(cps[0].n.get('args', [])) == len(f.params) and \
+                all(strip_casts(f, a).get('id') == p['id'] for a, p in zip(cps[0].n['args'], f.params))
         ck.verdict(ok, rule, f, 'multi:%s(%d params)' % (f.name, len(f.params)), loops[0] if loops else None,
                    'every storage receives the measurement' if ok else 'the multi storage does not forward the measurement unchanged to every storage (view streams lose data)')
     return cnt
@@ -210,9 +213,19 @@ def build_metrics_rules(ck, prog, rule3='C06.R3', rule4='C06.R4', fname='sdk::me
                    'early return only on the single-collector fast path or when this reader has no stash' if ok else
                    'buildMetrics can return without a report before this reader\'s stash was consulted although several readers may be attached: what other readers\' collections stashed for this reader is never delivered')
     # writes to the per-collector "last reported" stash
+    def _into_stash(idx, ctx):
+        """the assigned object is (part of) an entry of the last-reported stash: reached directly, through an iterator from find /
+        emplace, or through a local reference bound to such an entry"""
+        if access_path(f, idx)[:2] == ('this', 'last_reported_metrics_') or _from_find(g, rd, f, idx, ctx, 'last_reported_metrics_'):
+            return True
+        root = strip_casts(f, idx)
+        while root['k'] == 'member' and root.get('base') is not None:
+            root = strip_casts(f, root['base'])
+        if root['k'] == 'ref' and root.get('sk') == 'local':
+            return 'last_reported_metrics_' in _member_sources(g, rd, f, root['i'], ctx)
+        return False
     writes = [p for p in g.points if p.n is not None and p.ctx is g.root_ctx and
-              ((p.n['k'] == 'call' and p.n.get('op') == '=' and p.n.get('obj') is not None and
-                (access_path(f, p.n['obj'])[:2] == ('this', 'last_reported_metrics_') or _from_find(g, rd, f, p.n['obj'], p.ctx, 'last_reported_metrics_'))) or
+              ((p.n['k'] == 'call' and p.n.get('op') == '=' and p.n.get('obj') is not None and _into_stash(p.n['obj'], p.ctx)) or
                (p.n['k'] == 'call' and strip_targs(p.n.get('c', '')).rsplit('::', 1)[-1] in ('insert', 'emplace', 'insert_or_assign') and
                 p.n.get('obj') is not None and access_path(f, p.n['obj'])[:2] == ('this', 'last_reported_metrics_')))]
     # R3d: the map stored as "reported" is the one the reader's unreported deltas were merged into, on every path
@@ -424,7 +437,8 @@ def rule_r7(ck, prog, rule='C06.R7'):
     fe = prog.function('sdk::metrics::MeterContext::ForEachMeter')
     g = Graph(prog, fe, inline=None, sync_lambdas=False)
     cbp = [p for p in fe.params if 'function_ref' in p['t']]
-    loops = [n for n in fe.nodes if n['k'] == 'forrange' and access_path(fe, n['range']) == ('this', 'meters_')]
+    from .common import loops_over
+    loops = loops_over(fe, lambda ap: ap == ('this', 'meters_'))
     if not cbp or not loops:
         raise AnalysisBroken('MeterContext::ForEachMeter: loop over meters_ / callback parameter not found')
     inv = [p for p in g.points if p.n is not None and p.n['k'] == 'call' and
@@ -441,7 +455,7 @@ def rule_r7(ck, prog, rule='C06.R7'):
     # (c) a meter collects every storage
     mc = prog.function('sdk::metrics::Meter::Collect')
     g = Graph(prog, mc, inline=None, sync_lambdas=False)
-    loops = [n for n in mc.nodes if n['k'] == 'forrange' and access_path(mc, n['range']) == ('this', 'storage_registry_')]
+    loops = loops_over(mc, lambda ap: ap == ('this', 'storage_registry_'))
     if not loops:
         raise AnalysisBroken('Meter::Collect: loop over storage_registry_ not found')
     cps = [p for p in g.points if p.n is not None and p.n['k'] == 'call' and p.n.get('virt') and strip_targs(p.n.get('c', '')).endswith('MetricStorage::Collect')
